@@ -84,6 +84,7 @@ static void c05Body(Env& env, const std::string& stage, int n, const dom::Alphab
     }
     c.count(empty ? "lang_empty" : "lang_nonempty");
     if (dom::hasUseless(A0)) c.count("class_useless_states");
+    if (c.wantSample() && !empty && A0.rules.size() >= 3) c.sample(D->str(A0));
     size_t sizes[3][2];
     for (int numbering = 0; numbering < 3; numbering++) {
       size_t nn = D->n;
@@ -142,6 +143,7 @@ static Register b6("c05.n4afk4", "C05", "all of TA(4,{a:0,f:1},<=4 rules) x 3 nu
 static Register b7("c05.n4afk5", "C05", "all of TA(4,{a:0,f:1},<=5 rules) x 3 numberings x ALL rule insertion orders", [](Env& e) { c05Body(e, "c05.n4afk5", 4, dom::SigmaAF(), 5, true); });
 static Register b8("c05.n4s3pk3", "C05", "all of TA(4,{a:0,f:1,g:2},<=3 rules) x 3 numberings x all insertion orders", [](Env& e) { c05Body(e, "c05.n4s3pk3", 4, dom::Sigma3p(), 3, true); });
 static Register b9("c05.n4afk5.std", "C05", "all of TA(4,{a:0,f:1},<=5 rules) x 3 numberings (2 insertion orders)", [](Env& e) { c05Body(e, "c05.n4afk5.std", 4, dom::SigmaAF(), 5, false); });
+static Register b10("c05.n3afhk3", "C05", "all of TA(3,{a:0,f:1,h:3},<=3 rules) x 3 numberings (ternary rules)", [](Env& e) { c05Body(e, "c05.n3afhk3", 3, dom::SigmaAFH(), 3); });
 static Register d1("c15.n3s3pk3", "C15", "all of TA(3,{a:0,f:1,g:2},<=3 rules)", [](Env& e) { c15Body(e, "c15.n3s3pk3", 3, dom::Sigma3p(), 3); });
 static Register d2("c15.n3s3pk4", "C15", "all of TA(3,{a:0,f:1,g:2},<=4 rules)", [](Env& e) { c15Body(e, "c15.n3s3pk4", 3, dom::Sigma3p(), 4); });
 static Register d3("c15.n2s3k6", "C15", "all of TA(2,{a:0,b:0,f:1,g:2},<=6 rules)", [](Env& e) { c15Body(e, "c15.n2s3k6", 2, dom::Sigma3(), 6); });
